@@ -33,6 +33,7 @@ type c17cOp struct {
 type c17cPlan struct {
 	Seed    uint64     `json:"seed"`
 	NTx     int        `json:"ntx"`
+	Gate    bool       `json:"gate,omitempty"` // transactions relayed by the gate (they carry a gate nonce that admission records)
 	Clients [][]c17cOp `json:"clients"`
 	Sched   struct {
 		Seed       uint64 `json:"seed"`
@@ -42,7 +43,7 @@ type c17cPlan struct {
 }
 
 func c17cGen(r *simrt.Rand, seed uint64) c17cPlan {
-	p := c17cPlan{Seed: seed, NTx: r.Range(2, 6)}
+	p := c17cPlan{Seed: seed, NTx: r.Range(2, 6), Gate: r.Chance(0.5)}
 	nc := r.Range(2, 4)
 	blk := 0
 	used := map[int]bool{} // each transaction belongs to at most one block
@@ -145,6 +146,9 @@ func c17cExec(p c17cPlan, st *simrt.Stats, log *simrt.Log) *simrt.Violation {
 	var txs []*types.Transaction
 	for i := 0; i < p.NTx; i++ {
 		tx := node.RawTx(types.TransactionTypeOperatorEvent, node.Account(i%5), "", uint64(i/5), "", "", fmt.Sprintf("c%d", i))
+		if p.Gate {
+			tx.SubTransactions = []types.UserData{{Address: uint64(i + 1)}}
+		}
 		txs = append(txs, tx)
 	}
 	idx := map[common.Hash]int{}
@@ -327,6 +331,19 @@ func c17cExec(p c17cPlan, st *simrt.Stats, log *simrt.Log) *simrt.Violation {
 		st.Nontrivial(res.Signature)
 	}
 	return nil
+}
+
+// C17RacePlan generates the i-th concurrent plan of a seed (used by the race-detector stage).
+func C17RacePlan(seed uint64, i int) json.RawMessage {
+	r := simrt.NewRand(runner.PlanSeed(seed, "C17-race", i))
+	p := c17cGen(r, runner.PlanSeed(seed, "C17-race", i))
+	p.Gate = true
+	p.Sched.MaxPreempt = -1
+	b, _ := json.Marshal(struct {
+		Mode string   `json:"mode"`
+		Conc c17cPlan `json:"conc"`
+	}{"conc", p})
+	return b
 }
 
 func c17cShrink(p c17cPlan) []json.RawMessage {
